@@ -164,10 +164,10 @@ let opt_str f = function Some v -> f v | None -> "OUTOFFUEL"
 let ff_op (op : string) (a : tok list) : string =
   let el i = el_of_raw (zi (List.nth a i)) in
   match op with
-  | "add" -> raw_of_el (FfLimbs.addGeneric (el 1) (if Z.to_int (zi (List.nth a 0)) >= 3 then el 1 else el 2))
-  | "sub" -> raw_of_el (FfLimbs.subGeneric (el 1) (if Z.to_int (zi (List.nth a 0)) >= 3 then el 1 else el 2))
-  | "mul" -> raw_of_el (FfLimbs.mulGeneric (el 1) (if Z.to_int (zi (List.nth a 0)) >= 3 then el 1 else el 2))
-  | "div" -> opt_str raw_of_el (FfLimbs.div (el 1) (if Z.to_int (zi (List.nth a 0)) >= 3 then el 1 else el 2))
+  | "add" -> raw_of_el (FfLimbs.addGeneric (el 1) (if (let k = Z.to_int (zi (List.nth a 0)) in k = 3 || k = 4) then el 1 else el 2))
+  | "sub" -> raw_of_el (FfLimbs.subGeneric (el 1) (if (let k = Z.to_int (zi (List.nth a 0)) in k = 3 || k = 4) then el 1 else el 2))
+  | "mul" -> raw_of_el (FfLimbs.mulGeneric (el 1) (if (let k = Z.to_int (zi (List.nth a 0)) in k = 3 || k = 4) then el 1 else el 2))
+  | "div" -> opt_str raw_of_el (FfLimbs.div (el 1) (if (let k = Z.to_int (zi (List.nth a 0)) in k = 3 || k = 4) then el 1 else el 2))
   | "neg" -> raw_of_el (FfLimbs.negGeneric (el 1))
   | "double" -> raw_of_el (FfLimbs.doubleGeneric (el 1))
   | "square" -> raw_of_el (FfLimbs.square (el 1))
@@ -222,7 +222,7 @@ let ff_op (op : string) (a : tok list) : string =
 
 let ffg_op (op : string) (a : tok list) : string =
   let el i = zi (List.nth a i) in
-  let second () = if Z.to_int (el 0) >= 3 then el 1 else el 2 in
+  let second () = if (let k = Z.to_int (el 0) in k = 3 || k = 4) then el 1 else el 2 in
   match op with
   | "add" -> bI (FfgLimbs.addGeneric (el 1) (second ()))
   | "sub" -> bI (FfgLimbs.subGeneric (el 1) (second ()))
@@ -291,6 +291,7 @@ let dispatch (op : string) (a : tok list) : string =
   | "swap" -> xB (Utils.coq_SwapEndianness (b 0))
   | "lebytes" -> xB (Utils.coq_BigIntLEBytes (i 0))
   | "fromle" -> bI (Utils.coq_SetBigIntFromLEBytes (b 0))
+  | "fromledirty" -> bI (Utils.coq_SetBigIntFromLEBytes (b 0))
   | "hexstr" -> xB (Utils.coq_HexString (b 0))
   | "hexenc" -> xB (Utils.coq_HexEncode (b 0))
   | "hexdec" -> res_str xB (Utils.coq_HexDecode (b 0))
